@@ -17,7 +17,10 @@ pub struct Case {
     pub final_newline: bool,
 }
 
-const BAD_INTS: [&str; 9] = ["", "NaN", "12a", " 5", "5 ", "9223372036854775808", "1.0", "0x10", "--1"];
+const BAD_INTS: [&str; 24] = [
+    "", "NaN", "12a", " 5", "5 ", "9223372036854775808", "1.0", "0x10", "--1", "12=34", "4321=", "=5", "1 2", "1\t", "１２", "٣", "1_000", "1e3",
+    "+", "-", "−1", "-9223372036854775809", "5\u{0}", "1,000",
+];
 const BAD_NAMES: [&str; 14] = [
     "pkgname", "PKGNAME ", " PKGNAME", "PKG_NAME", "PKGNAM", "PKGNAMES", "BUILDDATE", "SIZE_PK", "FILE_SIZES", "DESCR",
     "", "Comment", "REQUIRE", "PKG_PATH",
@@ -62,6 +65,10 @@ fn complete_lines() -> BoxedStrategy<Vec<String>> {
 enum Fault {
     NoEquals(String),
     BadName(usize, String),
+    /// a name at edit distance one from a supported name (kind, variable, position, letter)
+    Misspelt(u8, usize, u16, u8, String),
+    /// a token of the library's own source as the name
+    DictName(String, String),
     BadInt(usize, bool),
     Remove(usize),
 }
@@ -72,14 +79,47 @@ fn fault() -> BoxedStrategy<Fault> {
         2 => (0usize..BAD_NAMES.len(), sumgen::text()).prop_map(|(i, v)| Fault::BadName(i, v)),
         2 => (0usize..BAD_INTS.len(), any::<bool>()).prop_map(|(i, b)| Fault::BadInt(i, b)),
         3 => (0usize..11).prop_map(Fault::Remove),
+        2 => (0u8..5, 0usize..VARS.len(), any::<u16>(), 0u8..27, sumgen::text()).prop_map(|(k, i, p, l, v)| Fault::Misspelt(k, i, p, l, v)),
+        1 => (crate::engine::dict::string_token(name_char, "X"), sumgen::text()).prop_map(|(n, v)| Fault::DictName(n, v)),
     ]
     .boxed()
+}
+
+fn name_char(c: char) -> bool {
+    c != '=' && c != '\r' && c != '\n'
+}
+
+/// one edit of a supported name: 0 substitute, 1 delete, 2 insert, 3 transpose, 4 change case
+pub fn misspell(name: &str, kind: u8, pos: u16, letter: u8) -> String {
+    let mut cs: Vec<char> = name.chars().collect();
+    let l = if letter < 26 { (b'A' + letter) as char } else { '_' };
+    match kind % 5 {
+        0 => {
+            let k = idx(pos, cs.len());
+            cs[k] = l;
+        }
+        1 => {
+            cs.remove(idx(pos, cs.len()));
+        }
+        2 => cs.insert(idx(pos, cs.len() + 1), l),
+        3 if cs.len() >= 2 => {
+            let k = idx(pos, cs.len() - 1);
+            cs.swap(k, k + 1);
+        }
+        _ => {
+            let k = idx(pos, cs.len());
+            cs[k] = cs[k].to_ascii_lowercase();
+        }
+    }
+    cs.into_iter().collect()
 }
 
 fn apply_fault(lines: &mut Vec<String>, f: &Fault, pos: u16) {
     match f {
         Fault::NoEquals(s) => lines.insert(idx(pos, lines.len() + 1), s.clone()),
         Fault::BadName(i, v) => lines.insert(idx(pos, lines.len() + 1), format!("{}={}", BAD_NAMES[*i], v)),
+        Fault::Misspelt(k, i, p, l, v) => lines.insert(idx(pos, lines.len() + 1), format!("{}={}", misspell(VARS[*i].0, *k, *p, *l), v)),
+        Fault::DictName(n, v) => lines.insert(idx(pos, lines.len() + 1), format!("{}={}", n, v)),
         Fault::BadInt(i, which) => lines.insert(
             idx(pos, lines.len() + 1),
             format!("{}={}", if *which { "FILE_SIZE" } else { "SIZE_PKG" }, BAD_INTS[*i]),
@@ -150,6 +190,39 @@ fn enumerate_missing(_t: Tier) -> Box<dyn Iterator<Item = Case>> {
         }
     }
     Box::new(out.into_iter())
+}
+
+/// every name at edit distance one from a supported name (substitution, deletion, insertion with
+/// A-Z and '_', transposition, one letter in lower case), each as one extra line of a complete entry
+fn enumerate_misspelt(_t: Tier) -> Box<dyn Iterator<Item = Case>> {
+    let base: Vec<String> = (0..VARS.len())
+        .map(|i| match VARS[i].1 {
+            Kind::Int => format!("{}=1", VARS[i].0),
+            _ => format!("{}=v{}", VARS[i].0, i),
+        })
+        .collect();
+    let mut names = std::collections::BTreeSet::new();
+    for (name, _, _) in VARS.iter() {
+        let n = name.chars().count() as u16;
+        for kind in 0u8..5 {
+            let positions = if kind == 2 { n + 1 } else { n };
+            for p in 0..positions {
+                // position p of `positions` through the monotone index map
+                let pos = ((p as u32 * 65536 + positions as u32 - 1) / positions as u32).min(65535) as u16;
+                let letters: Vec<u8> = if kind == 0 || kind == 2 { (0..27).collect() } else { vec![0] };
+                for l in letters {
+                    names.insert(misspell(name, kind, pos, l));
+                }
+            }
+        }
+    }
+    let base2 = base.clone();
+    Box::new(names.into_iter().enumerate().map(move |(k, n)| {
+        let mut lines = base2.clone();
+        let value = if k % 2 == 0 { "1".to_string() } else { format!("v{}", k) };
+        lines.insert(k % (lines.len() + 1), format!("{}={}", n, value));
+        Case { lines, faults: 1, final_newline: true }
+    }))
 }
 
 fn missing_index(mv: &MissingVariable) -> usize {
@@ -333,6 +406,7 @@ pub fn property() -> Property {
         streams: vec![
             random_stream("texts", "generated entry texts with 0-3 injected faults", case_strategy, |t| t.pick(100_000, 6_000_000), check),
             enumerated_stream("missing", "each required variable (and each pair) removed from a complete entry", enumerate_missing, check),
+            enumerated_stream("misspelt", "every name at edit distance one from a supported name, as an extra line of a complete entry", enumerate_misspelt, check),
             enumerated_stream("is_completed", "all subsets of required variables set through the API", subsets, check_completed),
         ],
         selfcheck: m::selfcheck,
